@@ -37,6 +37,8 @@ type lifeScenario struct {
 	panicInActive bool // the active handler panics (with a string value)
 	swallow       bool // a user exception handler swallows the exception of the active panic
 	panicInactive bool // the inactive handler panics after it was called
+	swallowAll    bool // the user exception handler only logs: every exception is consumed
+	failClose     bool // transport.Close reports an error (the transport is closed all the same)
 	threads       [][]lifeOp
 }
 
@@ -134,6 +136,9 @@ func (h lifeExc) HandleException(ctx netty.ExceptionContext, ex netty.Exception)
 	if cls == "activepanic" && h.sc.swallow {
 		return
 	}
+	if h.sc.swallowAll {
+		return
+	}
 	ctx.HandleException(ex)
 }
 
@@ -154,14 +159,20 @@ func genLife(rng *rand.Rand) *lifeScenario {
 	for i := 0; i < rng.Intn(3); i++ {
 		t1 = append(t1, lifeOp{kind: "feed"})
 	}
-	switch rng.Intn(5) {
+	switch rng.Intn(6) {
 	case 0:
 		t1 = append(t1, lifeOp{kind: "eof"})
 	case 1:
 		t1 = append(t1, lifeOp{kind: "failnet"})
 	case 2:
 		t1 = append(t1, lifeOp{kind: "failto"})
+	case 3: // a broken connection reported by a decoder that adds context to the error (%w)
+		t1 = append(t1, lifeOp{kind: "failwrapnet"})
 	}
+	if n := len(t1); n > 0 && (t1[n-1].kind == "failnet" || t1[n-1].kind == "failwrapnet") && !sc.panicInActive && rng.Intn(2) == 0 {
+		sc.swallowAll = true // a logging-only exception handler: the broken transport must close the channel all the same
+	}
+	sc.failClose = rng.Intn(6) == 0
 	if len(t1) > 0 {
 		sc.threads = append(sc.threads, t1)
 	}
@@ -189,6 +200,9 @@ func runLifeScenario(sc *lifeScenario, strat rt.Strategy) *rt.Controller {
 	defer func() { netty.NvRT = nil }()
 	tr := mock.NewTransport()
 	tr.Block = func(ready func() bool) { c.Await("tr.read", ready) }
+	if sc.failClose {
+		tr.CloseErr = errors.New("close_notify: broken pipe")
+	}
 	tr.OnCall = func(call mock.Call) {
 		if call.Op == "close" {
 			c.Emit("tr:close")
@@ -230,6 +244,9 @@ func runLifeScenario(sc *lifeScenario, strat rt.Strategy) *rt.Controller {
 				case "failto":
 					tr.EndOfStream(errTO)
 					c.Emit("failto")
+				case "failwrapnet":
+					tr.EndOfStream(fmt.Errorf("frame header: %w", errNetFail))
+					c.Emit("failnet")
 				case "cl":
 					c.Emit("closecall:out:%s", op.err)
 					switch op.err {
@@ -257,7 +274,7 @@ func runLifeScenario(sc *lifeScenario, strat rt.Strategy) *rt.Controller {
 }
 
 func printLife(sc *lifeScenario, c *rt.Controller) {
-	emit("C05L cfg %d %d %d %d %d %d", b2i(sc.async), b2i(sc.closeInActive), sc.closeInRead, b2i(sc.panicInActive), b2i(sc.swallow), b2i(sc.panicInactive))
+	emit("C05L cfg %d %d %d %d %d %d %d %d", b2i(sc.async), b2i(sc.closeInActive), sc.closeInRead, b2i(sc.panicInActive), b2i(sc.swallow), b2i(sc.panicInactive), b2i(sc.swallowAll), b2i(sc.failClose))
 	for ti, ops := range sc.threads {
 		ss := make([]string, len(ops))
 		for i, o := range ops {
